@@ -200,11 +200,7 @@ def run(model, col, tier):
     col.check(isinstance(first, ast.Expr) and isinstance(first.value, ast.Call) and last_attr(first.value) == "AcceptVisitor", "R20.3",
               f"{UPD}::v_Generic children first", "children are updated before the parent's hull is computed", "the parent's hull is computed before its children were updated", UPD, vg)
     src = unparse(vg)
-    own = [n for n in ast.walk(vg) if isinstance(n, ast.If) and "obj.GetLocation().IsUnknown" in unparse(n.test)]
-    kids = [c for c in ast.walk(vg) if isinstance(c, ast.Call) and last_attr(c) == "ForEachChild"]
     mcall = [c for c in ast.walk(vg) if isinstance(c, ast.Call) and last_attr(c) == "Merge"]
-    col.check(bool(own) and bool(kids) and bool(mcall) and any(isinstance(a, ast.Starred) for a in mcall[0].args), "R20.3", f"{UPD}::v_Generic merges own and children",
-              "the node's own known location and every child's known location are merged", "own/children locations are not all merged into the node's location", UPD, vg)
     setl = [c for c in ast.walk(vg) if isinstance(c, ast.Call) and last_attr(c) == "SetLocation"]
     col.check(bool(setl) and "Merge" in unparse(setl[0]), "R20.3", f"{UPD}::v_Generic stores the hull", "obj.SetLocation(Location.Merge(*locations))", None, UPD, vg)
     # only *known* locations enter the hull (an unknown one is the span (-1,-1): it would drag the begin to -1), and a non-empty
@@ -219,6 +215,8 @@ def run(model, col, tier):
     nknown = 0
     known_sites = set()
     bad_app = []
+    objp20 = vg.args.args[1].arg
+    sources = set()     # whose location reaches the collection: the node's own, its children's
     for fn_ in fns20:
         env_ = _le20(fn_, allow_impure=True)
         for evs, status in paths(fn_.body, fold=_cf):
@@ -235,9 +233,19 @@ def run(model, col, tier):
                     if known is False:
                         known_sites.add(id(c))
                         nknown = len(known_sites)
+                        if fn_ is vg and what == f"{objp20}.GetLocation()":
+                            sources.add("own")
+                        elif fn_ is not vg and fn_.args.args and what == f"{fn_.args.args[0].arg}.GetLocation()":
+                            for k_ in walk_no_nested(vg):
+                                if isinstance(k_, ast.Call) and last_attr(k_) == "ForEachChild" and unparse(k_.func.value) == objp20 and k_.args and unparse(k_.args[0]) == fn_.name:
+                                    sources.add("children")
+                                if isinstance(k_, ast.Call) and isinstance(k_.func, ast.Name) and k_.func.id == fn_.name and k_.args and unparse(k_.args[0]) == objp20:
+                                    sources.add("own")
                     else:
                         bad_app.append(f"`{unparse(c)}` under {[(k, v) for k, v in atoms.items() if 'IsUnknown' in k]}")
-    col.check(nknown >= 2 and not bad_app, "R20.3", f"{UPD}::v_Generic collects known locations only", "the own and each child location is added exactly when it is not unknown",
+    col.check(sources == {"own", "children"} and bool(mcall) and any(isinstance(a, ast.Starred) for a in mcall[0].args), "R20.3", f"{UPD}::v_Generic merges own and children",
+              "the node's own known location and every child's known location are merged", f"only {sorted(sources)} of (own, children) locations are merged into the node's location", UPD, vg)
+    col.check(nknown >= 1 and not bad_app, "R20.3", f"{UPD}::v_Generic collects known locations only", "the own and each child location is added exactly when it is not unknown",
               (bad_app[0] if bad_app else "own / child location is never collected") + ": an unknown location (-1,-1) enters the hull or a known one is left out, so a composite's range does not cover its parts", UPD, vg)
     stored_paths = unstored_nonempty = 0
     for evs, status in paths(vg.body, fold=_cf):
